@@ -5,9 +5,36 @@ PROPS = ["C16"]
 PROFILES = [(3, {"epoll_prob": 1.0, "dropdisp_prob": 0.12, "share_fd_prob": 0.1, "kinds": {"comp": 5, "ping": 2, "timer": 0.5, "chan": 2}}), (1, {})]
 
 
+def async_adapters(chk, st):
+    """live Async adapters are part of C16: after drop / into_inner the fd must have left the poller and be insertable again
+    (end-to-end runs of harness/src/m_async.rs on a real socket pair; the kernel's table is read from /proc)"""
+    import p_c17
+    import vlib
+    cases = [c for c in p_c17.gen_cases("quick", 1) if int(c.split()[0]) <= 70000][:24]
+    impl, ilog = vlib.run_impl(["async"], cases, timeout=600)
+    bad = [(c, o) for c, o in zip(cases, impl) if "epoll_clean=1" not in o or "readapt=1" not in o]
+    chk.cov["async_adapter_cases"] = {"cases": len(cases), "failing": len(bad),
+                                      "rule": "payload/chunk/order/drop|into_inner matrix of the C17 harness; checked here: fd gone from /proc/self/fdinfo/<epfd> and re-adaptable"}
+    if bad:
+        c, o = bad[0]
+        what = "the fd of a dropped / unwrapped Async adapter is still registered with the OS poller" if "epoll_clean=0" in o else \
+               "the fd released by into_inner could not be adapted again"
+        chk.violation("oracle-async", "C16 violated on the real code: %s\ncase (len wchunk rchunk order early_dispatch nonblocking_before end): %s\n# result: %s\n(%d failing cases)"
+                      % (what, c, o[:300], len(bad)))
+
+
 def main(tier, seed):
-    return p_seqprops.run("C16", tier, seed, PROFILES, props=PROPS)
+    return p_seqprops.run("C16", tier, seed, PROFILES, props=PROPS, extra_front=async_adapters)
 
 
 def replay(path):
+    txt = open(path).read()
+    if "case (len wchunk" in txt:
+        import vlib
+        cases = [l.split(":", 1)[1].strip() for l in txt.split("\n") if l.startswith("case (len wchunk")]
+        vlib.build_harness()
+        impl, _ = vlib.run_impl(["async"], cases)
+        for c, o in zip(cases, impl):
+            print(c, "->", o[:200])
+        return 0 if all("epoll_clean=1" in o and "readapt=1" in o for o in impl) else 1
     return p_seqprops.replay("C16", path, props=PROPS)
